@@ -626,11 +626,13 @@ def run(prop: str, tier: str, seed: int) -> int:
     rsets = rewrite_sets(tier, seed)
     units: List[dict] = [{"kind": "negative"}]
     budget = 30 if q else 400           # corrupted nodes per machine (x 11 values)
-    for sp in sorted(specs, key=lambda s: len(json.dumps(s.config)), reverse=True):
-        units.append({"kind": "corrupt", "specs": [sp], "stride": max(1, fe.count_nodes(sp.config) // budget), "offset": seed})
-    for i, sp in enumerate(specs):
-        units.append({"kind": "rewrite", "specs": [sp], "rsets": rsets, "engine": "sync" if i % 2 == 0 else "async",
-                      "max_states": 40 if q else 400, "cross_per_machine": 2 if q else 6})
+    cunits = [{"kind": "corrupt", "specs": [sp], "stride": max(1, fe.count_nodes(sp.config) // budget), "offset": seed}
+              for sp in sorted(specs, key=lambda s: len(json.dumps(s.config)), reverse=True)]
+    runits = [{"kind": "rewrite", "specs": [sp], "rsets": rsets, "engine": "sync" if i % 2 == 0 else "async",
+               "max_states": 40 if q else 400, "cross_per_machine": 2 if q else 6} for i, sp in enumerate(specs)]
+    # the two kinds alternate, so that a run cut short by the thorough tier's time budget still holds both
+    for a, b in zip(runits, cunits):
+        units += [a, b]
     if NPROC > 1:
         import concurrent.futures as cf
 
@@ -671,7 +673,8 @@ def run(prop: str, tier: str, seed: int) -> int:
     if len(skipped) * 4 > len(kept) + len(skipped):
         errors.append(f"{len(skipped)} generated machines were left out because their plain probe was slow or failed")
     unused = [r for r in REWRITES if not cov["per_rewrite_sites"].get(r)]
-    if unused:
+    from ..core_check import BUDGET
+    if unused and not BUDGET["skipped"]:
         errors.append("rewrites never applicable in this run (vacuous): " + ",".join(unused))
     cov["traces_validated_against_impl"] = cov["rewrite_cases"] + cov["corruption_cases"] + cov["negative_cases"] + cov["cross_replayed_edges"]
     cov["evaluations"] = cov["traces_validated_against_impl"]
